@@ -21,7 +21,7 @@ RULES = {
 }
 FLOORS = {'R1': 14, 'R2': 6, 'R3': 3, 'R4': 3, 'R5': 4, 'R6': 3}
 
-MLL = 't->max_line_length'
+MLL = 'max_line_length'      # canonical term of qb_log_target.max_line_length (engine.bounds.CANON_FIELDS)
 
 
 def line_limit_invariant(ctx):
